@@ -27,6 +27,7 @@ func TestMain(m *testing.M) {
 	vh.QuietLog()
 	vh.Rule("also: a channel that has already delivered an earlier response; header-only control packets (PROTACK) between the fragments; 2..3 channels of ONE connection whose response packets arrive interleaved packet by packet in a generated order (each channel delivers what its response delivers alone and unfragmented). Non-trivial there: a packet of another channel arrives inside a message")
 	vh.Rule("also: rows with BLOB (0x24) columns whose values arrive as several data sets (random + every cut / pair of cuts of a fixed response; oracle: same delivery as the same bytes in one packet); responses of 300..9000 bytes in packets of 1..7 body bytes (thousands of packets)")
+	vh.Rule("also: responses containing a token the library has no parser for (OPTIONCMD, CONTROL, KEY, ...) with arbitrary bytes behind it: same delivery and same number of errors however the message is cut")
 	vh.Main(m, "C02")
 }
 
